@@ -82,6 +82,7 @@ func init() {
 	Properties["C01"] = &PropertySpec{
 		Modules: bt,
 		Rules: []Rule{
+			R57(),
 			Only(R53(), `^a/`),
 			R52(),
 			R45(),
@@ -99,6 +100,7 @@ func init() {
 	Properties["C02"] = &PropertySpec{
 		Modules: st,
 		Rules: []Rule{
+			R11(),
 			R51(),
 			Only(R22(), `filestore\.Add/content`),
 			Only(R11(), fns("(*GcsEmu).finishUpload")),
@@ -117,6 +119,7 @@ func init() {
 	Properties["C03"] = &PropertySpec{
 		Modules: bt,
 		Rules: []Rule{
+			Only(R54(), `^\(\*server\)\.ReadRows`, `^mergeRowRanges`, `^mergeSimpleRanges`, `^no-carried`),
 			Only(R53(), `^b/`),
 			Only(R43(), fns("(*server).ReadRows")),
 			Only(R09(), `^I1/`, `^I2/`, `^I5/`),
@@ -131,6 +134,7 @@ func init() {
 	Properties["C04"] = &PropertySpec{
 		Modules: st,
 		Rules: []Rule{
+			Only(R54(), `GcsEmu`, `^no-carried`),
 			R11(),
 			R12(),
 			Only(R17(), `^\(\*GcsEmu\)\.Handler/`),
@@ -176,6 +180,7 @@ func init() {
 	Properties["C07"] = &PropertySpec{
 		Modules: st,
 		Rules: []Rule{
+			Only(R56(), `^a/`),
 			R46(),
 			Only(R44(), `memstore`),
 			R11(),
@@ -194,6 +199,7 @@ func init() {
 	Properties["C08"] = &PropertySpec{
 		Modules: bt,
 		Rules: []Rule{
+			Only(R55(), `^a/`, `^floor`),
 			Only(R48(), `LeveldbDiskStorage`),
 			Only(R44(), `server\.tables`),
 			R21(),
@@ -206,6 +212,7 @@ func init() {
 	Properties["C09"] = &PropertySpec{
 		Modules: st,
 		Rules: []Rule{
+			R56(),
 			R49(),
 			Only(R48(), `filestore`),
 			R22(),
@@ -218,6 +225,7 @@ func init() {
 	Properties["C10"] = &PropertySpec{
 		Modules: st,
 		Rules: []Rule{
+			Only(R56(), `^a/`),
 			Only(R22(), `Metageneration`, `metagen`, `read-only`),
 			R23(),
 			R24(),
@@ -277,6 +285,7 @@ func init() {
 	Properties["C14"] = &PropertySpec{
 		Modules: bt,
 		Rules: []Rule{
+			Only(R55(), `^a/`, `^d/`),
 			Only(R44(), `server\.tables`),
 			Only(R43(), fns("(*server).DropRowRange")),
 			Only(R07(), fns(adminRPCs...)),
@@ -295,6 +304,8 @@ func init() {
 	Properties["C15"] = &PropertySpec{
 		Modules: st,
 		Rules: []Rule{
+			Only(R56(), `^a/`),
+			Only(R54(), `Compose`, `^no-carried`),
 			R46(),
 			R08(Only8("finishCompose")),
 			Only(R11(), fns("(*GcsEmu).finishCompose", "(*GcsEmu).handleGcsCopy")),
@@ -314,6 +325,7 @@ func init() {
 	Properties["C16"] = &PropertySpec{
 		Modules: bt,
 		Rules: []Rule{
+			Only(R55(), `^b/`, `^c/`),
 			R47(),
 			R45(),
 			Only(R02R03(), fns(gcFns...)),
@@ -329,6 +341,7 @@ func init() {
 	Properties["C17"] = &PropertySpec{
 		Modules: bt,
 		Rules: []Rule{
+			R55(),
 			Only(R08(Only8("ReadRows")), `-shape`, `-slot`),
 			R43(),
 			R09(),
@@ -342,6 +355,7 @@ func init() {
 	Properties["C18"] = &PropertySpec{
 		Modules: bt,
 		Rules: []Rule{
+			Only(R55(), `^c/`, `^d/`),
 			Only(R53(), `^b/`),
 			Only(R01(nil), `/table\.rows/`),
 			Only(R01(nil), fns(scanFns...), fns("scrubRow")),
@@ -370,6 +384,9 @@ func init() {
 	Properties["C20"] = &PropertySpec{
 		Modules: []string{"bigtable", "storage"},
 		Rules: []Rule{
+			Only(R56(), `^a/`),
+			Only(R55(), `^c/`, `^d/`),
+			R54(),
 			R51(),
 			R46(),
 			R44(),
